@@ -3,7 +3,9 @@ import vlib, common
 RULE = ("logs of 1..40 events (quick) / ..150 (thorough) built by random Add/AddBulk calls with crafted digests (shared prefixes of 0..255 bits, "
         "duplicates across and inside bulks); after every call queries for added events at versions in/above/below [reported,current] and for never-added "
         "neighbours; at the final state every event; each in-range answer is put on the wire and verified against snapshot(q).history and snapshot(current).hyper. "
-        "distinct = (case, state, event, version); non-trivial = existence answer with a non-empty history path")
+        "distinct = (case, state, event, version); non-trivial = existence answer with a non-empty history path; "
+        "hyperb: the hyper tree alone - after every Add/AddBulk/reopen three searches (a stored key, a key sharing a long prefix, a random key) through "
+        "HyperTree.QueryMembership, value and audit path compared with the batch-level Coq search (HyperBatch.bfind)")
 
 
 def run(v, tier, seed, replay):
@@ -20,8 +22,9 @@ def run(v, tier, seed, replay):
                         dict(kind="correspondence", theorem="C01_membership_complete is about Balloon/Balloon.v; its correspondence with balloon/, balloon/history, balloon/hyper no longer checks", mismatches=mism, seed=seed, tier=tier), no_input=True)
     finally:
         s.cleanup()
+    common.hyperb_tie(v, "C01", tier, seed, "C01_hyper_batch_search_is_the_published_search is about Hyper/HyperBatch.v (bfind); its correspondence with balloon/hyper/search.go no longer checks")
     v.coverage["trusted_base"] = vlib.TRUSTED_COMMON + [
         "no hypothesis on the hash function in C01_membership_complete; instance hypotheses (key length, injective key bits, value codec round trip, boolean equalities) hold at the SHA-256 instance by construction and are exercised by the correspondence",
-        "the hyper tree is modelled at the level of its published construction (Hyper/HyperModel.v: sparse tree + shortcut leaves); the insertion code of balloon/hyper over batches, cache and store is modelled (Hyper/HyperBatch.v) and proved to compute that construction (Hyper/HyperRefine*.v); the search code (pruneToFind over batches) is compared with the spec prover on every audit path of every run, not modelled",
+        "the hyper tree is modelled at the level of its published construction (Hyper/HyperModel.v: sparse tree + shortcut leaves); the insertion code of balloon/hyper over batches, cache and store is modelled (Hyper/HyperBatch.v) and proved to compute that construction (Hyper/HyperRefine*.v); the search code (pruneToFind over batches) is modelled (HyperBatch.bfind), compared on every run and proved to return the published construction's value and audit path (Hyper/HyperFind.v)",
         "modelled rather than verified: crypto/sha256 (Gallina SHA-256 compared byte-for-byte), storage/bplus, encoding of the wire maps"]
     v.assumptions = ["log shorter than 2^64 events", "write-cache capacity large enough that no unpersisted node is evicted inside one bulk (production: 300)"]
